@@ -72,15 +72,29 @@ func c22Metric(kind metrics.Kind, typ metrics.Type, labels []string, vals []c22V
 	return m
 }
 
+// c22LabelByte: printable ASCII other than the characters that separate
+// fields (or are rewritten as separators) in graphite, statsd, collectd, varz.
+func c22LabelByte(b byte) bool {
+	if b <= ' ' || b >= 0x7f {
+		return false
+	}
+	switch b {
+	case '.', '-', ':', '|', '/', '"', '=', ',', '{', '}', '\\':
+		return false
+	}
+	return true
+}
+
 func HarnessC22() {
 	which := nondetRange("kind", 0, 5)
 	kind := []metrics.Kind{metrics.Counter, metrics.Gauge, metrics.Timer, metrics.Counter, metrics.Histogram, metrics.Text}[which]
 	typ := []metrics.Type{metrics.Int, metrics.Float, metrics.Int, metrics.Float, metrics.Buckets, metrics.String}[which]
 	v1, v2 := c22Sym("v1"), c22Sym("v2")
-	// label values: one symbolic lower-case letter each, distinct
+	// label values: one symbolic byte each, distinct: any printable ASCII
+	// character that does not separate fields in one of the formats
 	l1, l2 := nondetByte("l1"), nondetByte("l2")
-	vAssume(l1 >= 'a' && l1 <= 'z')
-	vAssume(l2 >= 'a' && l2 <= 'z')
+	vAssume(c22LabelByte(l1))
+	vAssume(c22LabelByte(l2))
 	vAssume(l1 != l2)
 	labels := []string{string([]byte{l1}), string([]byte{l2})}
 	both := c22Metric(kind, typ, labels, []c22Val{v1, v2})
@@ -125,6 +139,25 @@ func HarnessC22() {
 	// (a graphite histogram record is one line per bucket written while
 	// ranging over a map: the lines are compared as a set)
 	vAssert(vSameLines(got, want), "C22.record-carries-own-label-sets-value")
+	// the record is the format's line made of this label set's label, value
+	// text and timestamp text (reference written from the formats' documents;
+	// the metric is foo{key=L} of program prog, host "host", interval 60s,
+	// no prefix flags)
+	if kind != metrics.Histogram && fmtr < 3 {
+		L := labels[1]
+		V := lsBoth[1].Datum.ValueString()
+		T := lsBoth[1].Datum.TimeString()
+		var ref string
+		switch fmtr {
+		case 0:
+			ref = "prog.foo.key." + L + " " + V + " " + T + "\n"
+		case 1:
+			ref = "prog.foo.key." + L + ":" + V + "|" + []string{"c", "g", "ms", "c", "", ""}[which]
+		case 2:
+			ref = "PUTVAL \"host/mtail-prog/" + []string{"counter", "gauge", "gauge", "counter", "", "text"}[which] + "-foo-key-" + L + "\" interval=60 " + T + ":" + V + "\n"
+		}
+		vAssert(vStrEq(got, ref), "C22.record-well-formed")
+	}
 	// the record for label set 1 is not the one for label set 2
 	first := render(both, lsBoth[0])
 	vAssert(!vSameLines(first, got), "C22.records-distinct")
